@@ -261,6 +261,14 @@ def unlaunchable_tasks(chk):
         "unencodable character in the command": 'run_command(name="k", run="echo \\ud800", parallelizable=True)\n',
         "combine output path is a regular file": 'run_command(name="pre", run="echo x > $COND_OUT/../k.task", parallelizable=True)\ncombine(name="k", deps=[":pre"])\n',
     }
+    import shutil
+    import subprocess
+    from common import PY, SRC
+
+    setpriv = shutil.which("setpriv")
+    if os.geteuid() == 0 and setpriv is not None:
+        # (D40) as an ordinary user would see it: the combine task's output directory exists and cannot be written
+        variants["combine output directory is not writable"] = 'run_command(name="pre", run="echo x > $COND_OUT/f", parallelizable=True)\ncombine(name="k", deps=[":pre"])\n'
     for name, kdef in variants.items():
         root = implrun.make_project({"COND": ""})
         cond = (kdef
@@ -269,7 +277,16 @@ def unlaunchable_tasks(chk):
                 + 'run_command(name="ind", run="touch $COND_OUT/ran")\n'
                 + 'group(name="top", deps=[":slow", ":dep", ":ind"])\n')
         open(os.path.join(root, "COND"), "w").write(cond)
-        res = implrun.run_cond(["run", "//:top", "-j", "2"], root, timeout=60)
+        if name.endswith("not writable"):
+            os.makedirs(os.path.join(root, "cond-out", "k.task"))
+            os.chmod(os.path.join(root, "cond-out", "k.task"), 0o555)
+            drop = "-dac_override,-dac_read_search,-fowner"
+            p = subprocess.run([setpriv, "--bounding-set=" + drop, "--inh-caps=" + drop, PY, "-m", "conductor", "run", "//:top", "-j", "2"], cwd=root,
+                               env=dict(os.environ, PYTHONPATH=SRC), capture_output=True, text=True, timeout=60, check=False)
+            res = implrun.Result(p.returncode, p.stdout, p.stderr)
+            os.chmod(os.path.join(root, "cond-out", "k.task"), 0o755)
+        else:
+            res = implrun.run_cond(["run", "//:top", "-j", "2"], root, timeout=60)
         t_exit = time.time()
         chk.coverage["evaluations"] += 1
         chk.count("real", "unlaunchable: " + name)
@@ -293,6 +310,61 @@ def unlaunchable_tasks(chk):
             chk.violation("impl-violation", "real processes, a task that cannot be launched (%s): %s" % (name, msg),
                           {"input": {"scenario": "unlaunchable", "variant": name, "cond": cond, "argv": ["run", "//:top", "-j", "2"]}, "impl_observation": {"exit": res.code, "output": text[-1200:], "ran": ran}, "oracle_verdict": msg},
                           match_key={"real": "unlaunchable"}, size=5)
+        if not problems:
+            chk.coverage["traces_validated_against_impl"] += 1
+
+
+def failures_do_not_exhaust_descriptors(chk):
+    """"every other needed task still runs": many tasks that fail -- with a non-zero status, or because they cannot be
+    launched -- must not use up the process's file descriptors, whatever their number.  The run gets a limit of 64 open
+    files (RLIMIT_NOFILE; a few hundred failures do the same under the usual 1024).  (D36: the log files opened for a task
+    whose launch failed, and the pipes of a sequential task that exited non-zero, stayed open until the end of the run --
+    regressions of the repairs D33 and of the kept Popen object; the independent task then failed with EMFILE.)"""
+    import os
+    import implrun
+    from implrun import strip_ansi
+
+    def limit():
+        import resource
+        resource.setrlimit(resource.RLIMIT_NOFILE, (64, 64))
+
+    variants = {
+        "60 tasks exit non-zero (sequential, teed)": ('run_experiment(name="bad%d", run="exit 3")', []),
+        "40 tasks cannot be launched (NUL byte)": ('run_experiment(name="bad%d", run="echo a\\0b")', []),
+        "40 tasks exit non-zero (-j 3)": ('run_experiment(name="bad%d", run="exit 3", parallelizable=True)', ["-j", "3"]),
+    }
+    for name, (tmpl, extra) in variants.items():
+        n = 60 if name.startswith("60") else 40
+        lines = [tmpl % i for i in range(n)]
+        lines.append('run_experiment(name="good", run="echo good > $COND_OUT/ran")')
+        lines.append('combine(name="all", deps=[%s])' % ", ".join(['":bad%d"' % i for i in range(n)] + ['":good"']))
+        cond = "\n".join(lines) + "\n"
+        root = implrun.make_project({"COND": cond})
+        res = implrun.run_cond(["run", "//:all"] + extra, root, timeout=120, pre=limit)
+        chk.coverage["evaluations"] += 1
+        chk.count("real", "descriptors: " + name)
+        text = strip_ansi(res.out + res.err)
+        co = os.path.join(root, "cond-out")
+        good = [d for d in (os.listdir(co) if os.path.isdir(co) else []) if d.startswith("good.task.") and os.path.exists(os.path.join(co, d, "ran"))]
+        problems = []
+        if "HARNESS-PRE-HOOK-FAILED" in res.err:
+            chk.violation("tie-broken", "the harness could not lower RLIMIT_NOFILE: %s" % res.err[-200:], {"input": {"scenario": "descriptors"}}, found_input=False)
+            continue
+        if res.code == 0 or res.code < 0:
+            problems.append("cond run exited %s" % res.code)
+        if "Traceback" in text:
+            problems.append("the run ended in a traceback: %r" % text[-300:])
+        if "Too many open files" in text or "Errno 24" in text:
+            problems.append("a task failed with EMFILE (too many open files)")
+        if not good:
+            problems.append("the independent task //:good was not executed")
+        if len(implrun.index_rows(root)) != 1:
+            problems.append("recorded versions %s (expected exactly the one of //:good)" % [r[0] for r in implrun.index_rows(root)])
+        for msg in problems:
+            chk.violation("impl-violation", "real processes, many failing tasks under a limit of 64 open files (%s): %s" % (name, msg),
+                          {"input": {"scenario": "descriptors", "variant": name, "cond": cond[:400] + " ...", "argv": ["run", "//:all"] + extra, "rlimit_nofile": 64},
+                           "impl_observation": {"exit": res.code, "output": text[-1200:]}, "oracle_verdict": msg},
+                          match_key={"real": "descriptors"}, size=5)
         if not problems:
             chk.coverage["traces_validated_against_impl"] += 1
 
@@ -421,6 +493,8 @@ def run_prop(prop, tier, seed, replay=None, extra_oracles=(), extra_part=None, e
         same_relative_name_in_two_packages(chk)
     if prop in ("C03", "C09"):
         unlaunchable_tasks(chk)
+    if prop == "C03":
+        failures_do_not_exhaust_descriptors(chk)
     if prop == "C04":
         real_slots(chk, 4 if tier == "quick" else 24)
         from reaper_util import stopped_task
